@@ -124,7 +124,7 @@ func runCheck(id, tier string, writeBaseline bool) int {
 		if fsp.Ext || !hasProp(fsp.Props, id) {
 			continue
 		}
-		if fsp.Trusted || fsp.Iface {
+		if fsp.Trusted || fsp.Iface || fsp.Opaque {
 			pkgSet[pkgOfKey(fsp.Key, specs)] = true
 			continue
 		}
